@@ -176,7 +176,7 @@ class Table:
         self.ops.append((toks, i, rule, cap))
         for j in range(i, self.next):
             self.where[j] = self.cur
-        return ' '.join(toks).replace(': :', '::')
+        return ' '.join(toks).replace(': :', '::').replace('= >', '=>')
 
     def coq(self):
         return '[' + '; '.join('mkOp [%s] %d %s %s' % ('; '.join('"%s"' % t.replace('"', '""') for t in toks), i, rule,
@@ -368,7 +368,7 @@ class TypedGen:
 MEET_GROUP = [0]
 
 
-def typed_prog(rng, kind, profile, family=None, handler=None, lets=(), meet=False, joiner=None, **kw):
+def typed_prog(rng, kind, profile, family=None, handler=None, lets=(), meet=False, joiner=None, iflike_rate=0.0, **kw):
     """A typed sync-kind program with the given depth profile.  family: 'Opt' | 'Res' for the step-end types."""
     is_try = kind[1] == '1'
     g = TypedGen(rng, kind, **kw)
@@ -391,7 +391,19 @@ def typed_prog(rng, kind, profile, family=None, handler=None, lets=(), meet=Fals
             g.tab.cur = (b, k)
             if k == 0:
                 toks, cv = val_rust(br['t'], rng, fail=rng.random() < g.fail_rate / 2)
-                br['init'] = g.call(cv_fn(br['t']), [toks], '(KConst %s)' % cv)
+                if iflike_rate and rng.random() < iflike_rate:
+                    # a block-LIKE initial value (`if`, `match`, `unsafe`): NOT a `{..}` block, so it is evaluated where it stands (on the branch's thread)
+                    def mk(i, toks=toks, t=br['t'], cv=cv):
+                        call = cv_fn(t) + ['(', str(i), ','] + toks + [')']
+                        shape = rng.choice(['if', 'match', 'unsafe'])
+                        if shape == 'if':
+                            return (['if', 'true', '{'] + call + ['}', 'else', '{'] + call + ['}'], '(KConst %s)' % cv, False)
+                        if shape == 'match':
+                            return (['match', '0', '{', '_', '=', '>'] + call + ['}'], '(KConst %s)' % cv, False)
+                        return (['unsafe', '{'] + call + ['}'], '(KConst %s)' % cv, False)
+                    br['init'] = g.tab.new(mk)
+                else:
+                    br['init'] = g.call(cv_fn(br['t']), [toks], '(KConst %s)' % cv)
             nops = rng.randint(0 if k == 0 else 1, 3)
             for attempt in range(20):
                 save_ops, save_next = list(g.tab.ops), g.tab.next
